@@ -120,7 +120,8 @@ template <class X> struct Q {
 
     // sizes beyond INT_MAX must be refused, not wrapped (UBSan watches the arithmetic)
     void huge_check(Ctx& c, int which) {
-        size_t n = which == 0 ? (size_t)200 * 1000 * 1000 : (size_t)360 * 1000 * 1000;
+        // 200 M and 360 M characters (the latter beyond the per-item guard for factor 6), and the largest lengths the per-item guard lets through
+        size_t n = which == 0 ? (size_t)200 * 1000 * 1000 : which == 1 ? (size_t)360 * 1000 * 1000 : which == 2 ? (size_t)INT_MAX / 6 - 1 : (size_t)INT_MAX / 3 - 1;
         if (sizeof(Char) > 1 && c.tier != "thorough") { c.count("huge_skipped_wide_in_quick"); return; }
         Char* big = (Char*)malloc((n + 1) * sizeof(Char)); if (!big) { c.count("huge_skipped_no_memory"); return; }
         for (size_t i = 0; i < n; i++) big[i] = X::wid('a'); big[n] = 0;
@@ -136,6 +137,20 @@ template <class X> struct Q {
             Char* out = nullptr; { LibScope ls; rc = X::ComposeQueryMallocEx(&out, &item, 1, nb); }
             c.evaluations++;
             if (rc == URI_SUCCESS) { size_t len = xstrlen<X>(out); if (len != 2 * n + 1) c.violation("C17", fmt("query/%s/huge-compose-wrong-length", X::tag()), what + fmt(" len=%zu", len)); free(out); }
+            // the writer with a small buffer: a short first item, then the huge string as key or as value. The worst-case size of the
+            // second item added to what is already written passes INT_MAX: it must be refused, and nothing beyond maxChars touched
+            for (int asValue = 0; asValue < 2; asValue++) {
+                static Char k8[9]; for (int i = 0; i < 8; i++) k8[i] = X::wid('k'); k8[8] = 0;
+                QList second; second.key = asValue ? k8 : big; second.value = asValue ? big : nullptr; second.next = nullptr;
+                QList first; first.key = k8; first.value = nullptr; first.next = &second;
+                const int cap = 64; Char* dest = (Char*)ob.make((size_t)cap * sizeof(Char), 1, 0x5A); int written = -7; int r3;
+                { LibScope ls; r3 = X::ComposeQueryEx(dest, &first, cap, &written, 1, nb); }
+                c.evaluations++;
+                Str w3 = fmt("list [(\"kkkkkkkk\",NULL), (%s)] with a %zu-character string, maxChars=%d, normalizeBreaks=%d", asValue ? "\"kkkkkkkk\", huge" : "huge, NULL", n, cap, nb);
+                long where; if (!ob.canaries_ok(&where)) c.violation("C17", fmt("query/%s/write-outside-maxchars", X::tag()), w3 + fmt(" offset %ld", where));
+                if (r3 != URI_ERROR_OUTPUT_TOO_LARGE) c.violation("C17", fmt("query/%s/too-small-capacity-wrong-code", X::tag()), w3 + fmt(" rc=%d", r3));
+                c.count("huge_writer_small_buffer");
+            }
         }
         free(big);
     }
@@ -191,7 +206,7 @@ static void run_case(Ctx& c, uint64_t idx) {
         uint64_t i = c.case_index - ns - nh - 255 * 4; c.note(fmt("query multi-item INT_MAX variant %llu", (unsigned long long)i)); c.attribute("C17"); c.distinct(99000 + i);
         if (i & 1) qW->multi_check(c, (unsigned)(i >> 1)); else qA->multi_check(c, (unsigned)(i >> 1)); return;
     }
-    if (idx < nh) { c.note("query huge"); c.attribute("C17"); if (idx % 2 == 0 || c.tier != "thorough") qA->huge_check(c, (int)(idx % 2)); else qW->huge_check(c, (int)(idx % 2)); c.distinct(idx + 12345); return; }
+    if (idx < nh) { c.note("query huge"); c.attribute("C17"); qA->huge_check(c, (int)(idx % 4)); if (c.tier == "thorough" && idx % 4 != 3) qW->huge_check(c, (int)(idx % 4)); c.distinct(idx + 12345); return; }
     QItems L; int n = r.chance(1, 40) ? r.range(9, 70) : r.range(0, 8);
     for (int i = 0; i < n; i++) { QItem it; it.key = r.chance(1, 6) ? Str() : gen_string(r, 10); it.hasValue = r.chance(2, 3); if (it.hasValue) it.value = r.chance(1, 6) ? Str() : gen_string(r, 10);
         if (n <= 8 && r.chance(1, 40)) { size_t len = special_length(r) % 1100; Str x = gen_string(r, len); while (x.size() < len) x += gen_string(r, len - x.size()).empty() ? Str("a") : gen_string(r, len - x.size()); x.resize(len); (r.coin() ? it.key : it.value) = x; if (!it.hasValue) it.value.clear(); }
